@@ -104,6 +104,7 @@ static int accepted_once;
 static int track_fd = -1;                  /* libevent's fd of the (first) connection under test */
 static long lib_read_total, lib_written_total, raw_sent_total, raw_read_total;
 static int lib_saw_eof;
+static long connects_seen, accepts_done;
 static size_t raw_in_total;               /* client mode: bytes the raw peer received (request bytes) */
 
 static void on_sys(int sym, int fd, long req, long res)
@@ -111,6 +112,7 @@ static void on_sys(int sym, int fd, long req, long res)
 	(void)req;
 	if (res >= 0) activity++;
 	else if (sym == SF_connect) activity++;
+	if (sym == SF_connect) connects_seen++;
 	if (fd >= 0 && fd == track_fd) {
 		if (sym == SF_read || sym == SF_readv || sym == SF_recv) {
 			if (res > 0) lib_read_total += res;
@@ -272,8 +274,8 @@ static long inq(int fd)
 static long inflight(void)
 {
 	long a = 0, b = 0;
-	if (track_fd >= 0 && conn_fd() == track_fd) a = raw_sent_total - lib_read_total - inq(track_fd);
-	if (rawfd >= 0 && peer_eof_at < 0) b = lib_written_total - raw_read_total - inq(rawfd);
+	if (track_fd >= 0 && raw_sent_total > lib_read_total && conn_fd() == track_fd) a = raw_sent_total - lib_read_total - inq(track_fd);
+	if (rawfd >= 0 && peer_eof_at < 0 && lib_written_total > raw_read_total) b = lib_written_total - raw_read_total - inq(rawfd);
 	return (a > 0 ? a : 0) + (b > 0 ? b : 0);
 }
 static void start_tracking(void)
@@ -285,9 +287,11 @@ static void start_tracking(void)
 	/* harness-level socket tuning only: avoid Nagle/delayed-ACK stalls of real time between small writes */
 	if (track_fd >= 0) setsockopt(track_fd, IPPROTO_TCP, TCP_NODELAY, &one, sizeof(one));
 }
+static long nyields;
 static void real_sleep_us(long us)
 {
 	(void)us;
+	nyields++;
 	sched_yield();
 }
 static double real_now(void)
@@ -297,15 +301,17 @@ static double real_now(void)
 	return ts.tv_sec + ts.tv_nsec / 1e9;
 }
 /* returns number of progress events at the raw side */
+static int probe_eof;
 static int service_raw(int server_mode)
 {
 	int prog = 0;
 	char buf[16384];
-	if (!server_mode && lstfd >= 0) {
+	if (!server_mode && lstfd >= 0 && connects_seen > accepts_done) {
 		for (;;) {
 			int fd = __real_accept(lstfd, NULL, NULL);
 			if (fd < 0) break;
 			prog++;
+			accepts_done++;
 			if (!accepted_once) {
 				accepted_once = 1;
 				int one = 1;
@@ -319,7 +325,8 @@ static int service_raw(int server_mode)
 			}
 		}
 	}
-	if (rawfd >= 0 && peer_eof_at < 0) {
+	/* read only when libevent has written something we have not seen, or may have closed its side */
+	if (rawfd >= 0 && peer_eof_at < 0 && (lib_written_total > raw_read_total || track_fd < 0 || probe_eof)) {
 		for (;;) {
 			ssize_t r = __real_read(rawfd, buf, sizeof(buf));
 			if (r > 0) {
@@ -338,26 +345,24 @@ static int service_raw(int server_mode)
 }
 static void step_to_idle(int server_mode)
 {
-	int quiet = 0, iter;
-	long stall = 0, last_q = -1;
+	long iter, last_q = -1;
 	double t_stall = 0;
+	/* event_base_loop(EVLOOP_NONBLOCK) itself iterates until an iteration finds nothing active, i.e. it returns
+	 * quiescent with respect to everything the kernel had reported.  What remains is our own side (reading what
+	 * libevent wrote, accepting) and bytes still in flight on loopback. */
 	for (iter = 0; iter < 200000; iter++) {
-		long a0 = activity, q;
-		int prog;
+		long q;
 		event_base_loop(base, EVLOOP_NONBLOCK);
 		sample_hw();
-		prog = service_raw(server_mode);
-		if (activity != a0 || prog) { quiet = 0; stall = 0; continue; }
-		if (event_base_get_num_events(base, EVENT_BASE_COUNT_ACTIVE) > 0) { quiet = 0; continue; }
-		/* bytes still in flight on loopback in either direction?  (softirq processing may be deferred) */
+		if (service_raw(server_mode)) continue;
+		if (event_base_get_num_events(base, EVENT_BASE_COUNT_ACTIVE) > 0) continue;
 		q = inflight();
 		if (q > 0) {
-			if (q != last_q) { last_q = q; stall = 0; t_stall = real_now(); }
-			stall++;
-			if (real_now() - t_stall < 0.05) { real_sleep_us(25); quiet = 0; continue; }
+			if (q != last_q) { last_q = q; t_stall = real_now(); }
+			if (real_now() - t_stall < 0.05) { real_sleep_us(25); continue; }
 			/* unchanged for 50 ms of real time: the receiver's window is closed; settled */
 		}
-		if (++quiet >= 2) return;
+		return;
 	}
 	noidle = 1;
 }
@@ -398,13 +403,20 @@ static int pred_fin_seen(void)
 	return 0;
 }
 
+static int hexval(int c)
+{
+	if (c >= '0' && c <= '9') return c - '0';
+	if (c >= 'a' && c <= 'f') return c - 'a' + 10;
+	if (c >= 'A' && c <= 'F') return c - 'A' + 10;
+	return -1;
+}
 static size_t unhex(const char *h, unsigned char *out)
 {
 	size_t n = 0;
 	while (h[0] && h[1]) {
-		unsigned v;
-		if (sscanf(h, "%2x", &v) != 1) break;
-		out[n++] = (unsigned char)v;
+		int a = hexval((unsigned char)h[0]), b = hexval((unsigned char)h[1]);
+		if (a < 0 || b < 0) break;
+		out[n++] = (unsigned char)(a << 4 | b);
 		h += 2;
 	}
 	return n;
@@ -435,7 +447,7 @@ static void reset_case(void)
 	nreq_delivered = 0; hw_sample = hw_exact = 0; in_deleted = 0; hwcb_installed = 0;
 	peer_eof_at = -1; peer_rst = 0; sendfail_at = -1; noidle = 0; reconnects = 0;
 	raw_in_total = 0; ncreq = 0; ndone = 0; cur_item = -1;
-	track_fd = -1; lib_read_total = lib_written_total = raw_sent_total = raw_read_total = 0; lib_saw_eof = 0; fin_pending = 0;
+	nyields = 0; connects_seen = accepts_done = 0; probe_eof = 0; track_fd = -1; lib_read_total = lib_written_total = raw_sent_total = raw_read_total = 0; lib_saw_eof = 0; fin_pending = 0;
 	accepted_once = 0;
 }
 
@@ -454,7 +466,7 @@ static int wait_until(int (*pred)(void), int server_mode)
 }
 static int pred_srv_accepted(void) { return http && TAILQ_FIRST(&http->connections) != NULL; }
 static int pred_cli_accepted(void) { return rawfd >= 0 || reconnects > 0; }
-static int pred_raw_eof(void) { return peer_eof_at >= 0; }
+static int pred_raw_eof(void) { probe_eof = 1; return peer_eof_at >= 0; }
 
 static void run_server_case(const char *id, struct opts *o, char **items, int nitems)
 {
@@ -508,9 +520,9 @@ static void run_server_case(const char *id, struct opts *o, char **items, int ni
 	sb_fmt(&line, "\",\"mode\":\"S\",\"nreq\":%d,\"reqs\":[", nreq_delivered);
 	sb_add(&line, reqs_js.p ? reqs_js.p : "", reqs_js.n);
 	sb_str(&line, "],\"out\":"); sb_hexq(&line, out_bytes.p ? out_bytes.p : "", out_bytes.n);
-	sb_fmt(&line, ",\"closed_before_fin\":%d,\"alive_at_end\":%d,\"eof_at\":%d,\"rst\":%d,\"sendfail\":%d,\"hw\":%lu,\"hwx\":%lu,\"del\":%lu,\"noidle\":%d,\"leftconn\":%d}",
+	sb_fmt(&line, ",\"closed_before_fin\":%d,\"alive_at_end\":%d,\"eof_at\":%d,\"rst\":%d,\"sendfail\":%d,\"hw\":%lu,\"hwx\":%lu,\"del\":%lu,\"noidle\":%d,\"yields\":%ld,\"leftconn\":%d}",
 	       closed_before_fin, conn_alive_at_end, peer_eof_at, peer_rst, sendfail_at, (unsigned long)hw_sample,
-	       (unsigned long)hw_exact, (unsigned long)in_deleted, noidle, TAILQ_FIRST(&http->connections) != NULL);
+	       (unsigned long)hw_exact, (unsigned long)in_deleted, noidle, nyields, TAILQ_FIRST(&http->connections) != NULL);
 	puts(line.p);
 	free(line.p);
 
@@ -586,9 +598,9 @@ static void run_client_case(const char *id, struct opts *o, char **items, int ni
 	sb_str(&line, "CASE {\"id\":\""); sb_str(&line, id);
 	sb_fmt(&line, "\",\"mode\":\"C\",\"nrq\":%d,\"ev\":[", ncreq);
 	sb_add(&line, ev_js.p ? ev_js.p : "", ev_js.n);
-	sb_fmt(&line, "],\"rawin\":%lu,\"eof_at\":%d,\"rst\":%d,\"sendfail\":%d,\"reconn\":%d,\"hw\":%lu,\"hwx\":%lu,\"del\":%lu,\"noidle\":%d,\"state\":%d}",
+	sb_fmt(&line, "],\"rawin\":%lu,\"eof_at\":%d,\"rst\":%d,\"sendfail\":%d,\"reconn\":%d,\"hw\":%lu,\"hwx\":%lu,\"del\":%lu,\"noidle\":%d,\"yields\":%ld,\"state\":%d}",
 	       (unsigned long)raw_in_total, peer_eof_at, peer_rst, sendfail_at, reconnects, (unsigned long)hw_sample,
-	       (unsigned long)hw_exact, (unsigned long)in_deleted, noidle, (int)ccon->state);
+	       (unsigned long)hw_exact, (unsigned long)in_deleted, noidle, nyields, (int)ccon->state);
 	puts(line.p);
 	free(line.p);
 
